@@ -1234,3 +1234,64 @@ def replay_c08b(ctx, fl):
 REPLAYERS["c08"] = (lambda prev: (lambda ctx, fl: replay_c08b(ctx, fl) if fl.get("kind") == "c08b" else prev(ctx, fl)))(REPLAYERS["c08"])
 for _sz in ((), (1,), (0, 3), (2, 1, 4)):
     HARNESSES["c08_build_" + ("_".join(map(str, _sz)) or "empty")] = (lambda sz: (lambda ctx: c08_build(ctx, sz)))(_sz)
+
+
+def built_package_checks(ctx, sizes, which):
+    """which = 'c03': verify_digests of a freshly built package succeeds; 'c16': its reported offsets are the segment boundaries of the written bytes"""
+    ex = Exec(ctx.funcs, intrinsics.I, max_steps=8000000)
+    ctx.stats = ex.stats
+    ctx.bounds = ("PackageBuilder .. build() from MIR with files of %s symbolic content bytes, no compression; then %s" % (
+        "/".join(map(str, sizes)) or "no", "Package::verify_digests (digests as uninterpreted functions)" if which == "c03" else "get_package_segment_offsets vs Package::write"))
+
+    def setup(e):
+        return [sym_bytes(e, "c%d_" % i, n, 0, 255) for i, n in enumerate(sizes)]
+
+    def body(e, inp):
+        clock_stub(e)
+        b = builder_new(ctx, e)
+        b = e.call_fn(ctx.impl_fn("compression", None, "PackageBuilder"), [b, Adt("CompressionWithLevel", "None")])
+        cell = Cell(b)
+        for i in range(len(sizes)):
+            r = e.call_fn(ctx.impl_fn("add_data", None, "PackageBuilder"), [Ref(cell), VecV([Int(x, "u8") for x in inp[i]]), Adt("Timestamp", "Timestamp", [Int(5, "u32")]), file_options(b"/d/f%d" % i)])
+            assert r.variant == "Ok"
+        r = e.call_fn(ctx.impl_fn("build", None, "PackageBuilder"), [cell.v])
+        pkg = r.fields[0]
+        if which == "c03":
+            return r, e.call_fn(ctx.impl_fn("verify_digests", None, "Package"), [Ref(Cell(pkg))]), None
+        offs = e.call_fn(ctx.impl_fn("get_package_segment_offsets", None, "PackageMetadata"), [Ref(Cell(pkg.fields[0]))])
+        return r, offs, (written_bytes(ctx, e, pkg), len(as_bytes(e, pkg.fields[1])))
+
+    def on_path(e, inp, out):
+        k, v = out
+        if k != "return":
+            ctx.fail("building or checking panics: %s" % (v,), "PackageBuilder::build", kind="built_" + which, sizes=list(sizes))
+            return
+        r, res, extra = v
+        ctx.cover("package built", r.variant == "Ok")
+        if which == "c03":
+            if res.variant != "Ok":
+                ctx.fail("verify_digests fails on a package this library has just built (%s)" % (getattr(res.fields[0], "variant", res.fields[0]),), "Package::verify_digests", kind="built_c03", sizes=list(sizes))
+            return
+        bs, ncontent = extra
+        lead_o, sig_o, hdr_o, pay_o = [x.conc() for x in res.fields]
+        magic = [0x8e, 0xad, 0xe8, 0x01]
+
+        def at(o):
+            return o is not None and len(bs) >= o + 4 and not e._check(z3.Not(z3.And([g == m for g, m in zip(bs[o:o + 4], magic)])))
+        if not (lead_o == 0 and sig_o == 96 and at(sig_o) and at(hdr_o) and pay_o is not None and len(bs) == pay_o + ncontent and lead_o < sig_o < hdr_o < pay_o):
+            ctx.fail("the reported offsets %s of a built package are not the segment boundaries of the %d bytes it writes" % ([lead_o, sig_o, hdr_o, pay_o], len(bs)), "PackageMetadata::get_package_segment_offsets",
+                     kind="built_c16", sizes=list(sizes))
+    ex.run_all(setup, body, on_path)
+
+
+def replay_built(ctx, fl):
+    ans = ctx.native.ask("built_checks", ",".join(str(x) for x in fl.get("sizes", [])) or "-")
+    return not ans.startswith("same"), "real crate: package with files of those sizes built through the public API: verify_digests and offsets -> " + ans[:120]
+
+
+REPLAYERS["c03"] = (lambda prev: (lambda ctx, fl: replay_built(ctx, fl) if fl.get("kind") == "built_c03" else prev(ctx, fl)))(REPLAYERS["c03"])
+REPLAYERS["c16"] = (lambda prev: (lambda ctx, fl: replay_built(ctx, fl) if fl.get("kind") == "built_c16" else prev(ctx, fl)))(REPLAYERS["c16"])
+for _sz in ((), (1,), (2, 3)):
+    _nm = "_".join(map(str, _sz)) or "empty"
+    HARNESSES["c03_built_" + _nm] = (lambda sz: (lambda ctx: built_package_checks(ctx, sz, "c03")))(_sz)
+    HARNESSES["c16_built_" + _nm] = (lambda sz: (lambda ctx: built_package_checks(ctx, sz, "c16")))(_sz)
